@@ -82,6 +82,12 @@ SMax(t) ==
     [] t.op = "cat"  -> SumSeq([i \in DOMAIN t.ch |-> SMax(t.ch[i])])
     [] t.op = "uni"  -> MaxOf({ SMax(t.ch[i]) : i \in DOMAIN t.ch })
 
+\* design check usable without constants: analytic answers equal the numeric meaning for divisors 1..8
+SolverExactFor8(t) ==
+  LET E == Expand(t) IN
+     /\ SMin(t) = MinOf(E)
+     /\ SMax(t) = MaxOf(E)
+     /\ \A d \in 1..8 : SMod(t, d) = ModSet(E, d)
 -----------------------------------------------------------------------------
 (* Cost model (C16): number of tuples the design enumerates to answer       *)
 (* SMod(t, d).  combinations_with_replacement(R, k) has C(|R|+k-1, k)       *)
